@@ -436,7 +436,7 @@ func solve(o *Obligation, timeout time.Duration, portfolio []string) {
 	}
 	o.Level = 0
 	segments := false
-	if b, err := os.ReadFile(files[0]); err == nil && (bytes.Contains(b, []byte("(forall ((sj_")) || bytes.Contains(b, []byte("(forall ((aj_"))) {
+	if b, err := os.ReadFile(files[0]); err == nil && (bytes.Contains(b, []byte("(forall ((sj_")) || bytes.Contains(b, []byte("(forall ((aj_")) || bytes.Contains(b, []byte("(forall ((st_")) || bytes.Contains(b, []byte("(forall ((bv!"))) {
 		segments = true
 	}
 	type res struct {
